@@ -393,6 +393,18 @@ static int fb_show(var s, var out, int pos) { (void)s; (void)out; fb_calls[FB_SH
 static int fb_look(var s, var inp, int pos) { (void)s; (void)inp; fb_calls[FB_LOOK]++; return pos; }
 static size_t fb_size(void) { fb_calls[FB_SIZE]++; return 16; }
 
+/* Alloc: a type may override allocation, deallocation, both or (declaring the class with both members empty) neither;
+   an empty member means the default allocator / release, never a call through the empty slot */
+static volatile long fb_allocs, fb_deallocs;
+static var fb_cur_type;
+static var fb_alloc(void) { fb_allocs++; struct Header* h = calloc(1, sizeof(struct Header) + 16); return header_init(h, fb_cur_type, AllocHeap); }
+static void fb_dealloc(var s) { fb_deallocs++; free((char*)s - sizeof(struct Header)); }
+static void fb_expect_alloc(long a0, long d0, int want_alloc, int want_dealloc, const char* what) {
+  vh_evals(2);
+  if (fb_allocs - a0 != want_alloc) { vh_violation(K(want_alloc ? "fallback:filled-member-not-invoked-exactly-once" : "fallback:something-was-invoked-for-an-empty-member"), "%s: the alloc member ran %ld times, expected %d", what, fb_allocs - a0, want_alloc); }
+  if (fb_deallocs - d0 != want_dealloc) { vh_violation(K(want_dealloc ? "fallback:filled-member-not-invoked-exactly-once" : "fallback:something-was-invoked-for-an-empty-member"), "%s: the dealloc member ran %ld times, expected %d", what, fb_deallocs - d0, want_dealloc); }
+}
+
 static void fb_expect(const long* before, int which, int present, var exc, const char* what) {
   vh_evals(2);
   if (exc) { vh_violation(K("fallback:raised"), "%s on a type whose %s member is %s raised %s", what, FB_NAME[which], present ? "filled" : "empty or undeclared", vh_exc_name(exc)); return; }
@@ -433,8 +445,11 @@ static void fallback_case(vh_rng* r) {
   if (decl_hash) { two[0] = (void*)fb_hash; push(args, make_instance(Hash, 1, two, (uint32_t)has[FB_HASH])); }
   if (decl_show) { two[0] = (void*)fb_show; two[1] = (void*)fb_look; push(args, make_instance(Show, 2, two, (uint32_t)(has[FB_SHOW] | has[FB_LOOK] << 1))); }
   if (decl_size) { two[0] = (void*)fb_size; push(args, make_instance(Size, 1, two, (uint32_t)has[FB_SIZE])); }
+  int decl_alloc = vh_chance(r, 45), has_alloc = decl_alloc && vh_chance(r, 50), has_dealloc = decl_alloc && vh_chance(r, 50);
+  if (decl_alloc) { two[0] = (void*)fb_alloc; two[1] = (void*)fb_dealloc; push(args, make_instance(Alloc, 2, two, (uint32_t)(has_alloc | has_dealloc << 1))); vh_count("fallback_types_declaring_alloc"); if (has_alloc != has_dealloc) { vh_count("fallback_types_overriding_half_of_alloc"); } }
   var exc = NULL, type = NULL;
   VH_CATCH(type = new_root_with(Type, args), exc);
+  fb_cur_type = type;
   vh_op("fallback type: New%d(%d%d) Copy%d(%d) Assign%d(%d) Swap%d(%d) Cmp%d(%d) Hash%d(%d) Show%d(%d%d) Size%d(%d)", decl_new, has[0], has[1], decl_copy, has[2],
     decl_assign, has[3], decl_swap, has[4], decl_cmp, has[5], decl_hash, has[6], decl_show, has[7], has[8], decl_size, has[9]);
   if (exc || !type) { vh_violation(K("runtime-type:construction-raised"), "new(Type, ...) raised %s", vh_exc_name(exc)); return; }
@@ -442,8 +457,12 @@ static void fallback_case(vh_rng* r) {
   #define SNAP() do { for (int q = 0; q < FB_N; q++) { before[q] = fb_calls[q]; } } while (0)
   /* construction with no argument */
   volatile var a = NULL, b = NULL, c = NULL;
+  long a0 = fb_allocs, d0 = fb_deallocs;
   SNAP(); VH_CATCH(a = new_raw_with(type, tuple()), exc); fb_expect(before, FB_CONSTRUCT, has[FB_CONSTRUCT], exc, "new_raw (no argument)");
+  fb_expect_alloc(a0, d0, has_alloc, 0, "new_raw");
   SNAP(); VH_CATCH(b = new_raw_with(type, tuple()), exc); fb_expect(before, FB_CONSTRUCT, has[FB_CONSTRUCT], exc, "new_raw (no argument)");
+  { long a1 = fb_allocs, d1 = fb_deallocs; var t = NULL; VH_CATCH(t = alloc_raw(type), exc); fb_expect_alloc(a1, d1, has_alloc, 0, "alloc_raw");
+    if (t) { a1 = fb_allocs; d1 = fb_deallocs; VH_CATCH(dealloc_raw(t), exc); fb_expect_alloc(a1, d1, 0, has_dealloc, "dealloc_raw"); } }
   if (!a || !b) { return; }
   memset(a, 0x11, 16); memset(b, 0x22, 16);
   /* construction with one argument of the same type: the constructor if there is one, otherwise assignment */
@@ -495,7 +514,9 @@ static void fallback_case(vh_rng* r) {
   if (exc || sz != 16) { vh_violation(K("fallback:default-result-wrong"), "size(type) gave %zu / %s", sz, vh_exc_name(exc)); }
   if ((fb_calls[FB_SIZE] - before[FB_SIZE] != 0) != (has[FB_SIZE] != 0)) { vh_violation(K("fallback:something-was-invoked-for-an-empty-member"), "size: stub ran %ld times, member %s", fb_calls[FB_SIZE] - before[FB_SIZE], has[FB_SIZE] ? "filled" : "empty"); }
   /* destruction */
+  a0 = fb_allocs; d0 = fb_deallocs;
   SNAP(); VH_CATCH(del_raw(a), exc); fb_expect(before, FB_DESTRUCT, has[FB_DESTRUCT], exc, "del_raw");
+  fb_expect_alloc(a0, d0, 0, has_dealloc, "del_raw");
   SNAP(); VH_CATCH(del_raw(b), exc); fb_expect(before, FB_DESTRUCT, has[FB_DESTRUCT], exc, "del_raw");
   #undef SNAP
   vh_count("fallback_types");
